@@ -347,3 +347,12 @@ def primitive(p):
 
 def key(p):
     return tuple(sorted(p.items()))
+
+
+def monic(p):
+    """return (c, q) with p = c*q and the coefficient of q's smallest monomial equal to 1 (canonical up to scaling,
+    keeps magnitudes moderate, unlike the integer primitive part)"""
+    if not p:
+        return Fraction(0), p
+    lead = p[min(p)]
+    return lead, {m: c / lead for m, c in p.items()}
